@@ -108,6 +108,10 @@ def _split_parallel_assigns(fn, ref_fps, stats):
                                 ok = False
                     if ok:
                         rep = [_loc(ast.copy_location(ast.Assign(targets=[t], value=v), s), s) for t, v in zip(tg, vs)]
+                        for k_, r_ in enumerate(rep):
+                            for x in ast.walk(r_):
+                                if hasattr(x, "lineno"):
+                                    x.lineno = x.end_lineno = s.lineno + (k_ + 1) / 1e4
                         blk[i:i + 1] = rep
                         stats["split_parallel_assignments"] = stats.get("split_parallel_assignments", 0) + 1
                         i += len(rep)
@@ -358,11 +362,16 @@ class _Helper:
         if isinstance(fn, ast.AsyncFunctionDef):
             self.ok = False
         self.expr = None
+        self.let = False
         if self.ok:
             if len(self.body) == 1 and isinstance(self.body[0], ast.Return) and self.body[0].value is not None:
                 self.expr = self.body[0].value
             else:
-                self.expr = _bool_search(self.body) or _let_expression(self.body, set(self.params))
+                self.expr = _bool_search(self.body)
+                if self.expr is None:
+                    self.expr = _let_expression(self.body, set(self.params))
+                    # a let-helper called as a whole statement is inlined as statements (keeps the sharing of its locals)
+                    self.let = self.expr is not None
 
     def _is_self_call(self, call):
         f = call.func
@@ -632,7 +641,7 @@ def _fresh(name, taken):
     return new
 
 
-def _prepare_body(h, bound, fn, keep=()):
+def _prepare_body(h, bound, fn, keep=(), dead_after=frozenset()):
     """copy of the helper body with parameters substituted and colliding locals renamed -> (prefix stmts, body)"""
     body = _clone(h.body)
     holder = ast.Module(body=body, type_ignores=[])
@@ -646,7 +655,7 @@ def _prepare_body(h, bound, fn, keep=()):
     prefix = []
     mapping = {}
     for p, a in bound.items():
-        if p in assigned_params and isinstance(a, ast.Name) and a.id == p and p in keep:
+        if p in assigned_params and isinstance(a, ast.Name) and a.id == p and (p in keep or p in dead_after):
             # `x = helper(x)`: the helper's own rebinding of x is what the caller's x becomes
             continue
         if p in assigned_params or not isinstance(a, _SIMPLE):
@@ -762,7 +771,23 @@ def _inline_stmt_sites(owner, fn, cls, h, stats):
                 s = blk[i]
             rep = _try_stmt(s, fn, cls, h)
             if rep is not None:
+                # the inlined statements take the position of the call (in order): definition order inside the caller
+                # is what identifies locals, and reports point to the call site
+                # (fractional line numbers: the k-th inlined statement sits at line + k/1000, its own inner lines keep
+                # their relative order in the sixth decimal; reports print the integer part)
+                k_ = 0
                 for r in rep:
+                    base = getattr(r, "lineno", None)
+                    for x in ast.walk(r):
+                        if hasattr(x, "lineno") or isinstance(x, (ast.stmt, ast.expr)):
+                            rel = (getattr(x, "lineno", base) - base) if base is not None and \
+                                isinstance(getattr(x, "lineno", None), (int, float)) else 0
+                            x.lineno = int(s.lineno) + (k_ + 1) / 1000.0 + max(rel, 0) / 1e6
+                            x.end_lineno = x.lineno
+                            if not hasattr(x, "col_offset"):
+                                x.col_offset = 0
+                            x.end_col_offset = getattr(x, "end_col_offset", x.col_offset)
+                    k_ += 1
                     _loc(r, s)
                 blk[i:i + 1] = rep
                 stats["inlined_helper_calls"] = stats.get("inlined_helper_calls", 0) + 1
@@ -793,7 +818,7 @@ def _try_stmt(s, fn, cls, h):
     if call is None:
         return None
     bound = h.matches(call, cls)
-    if bound is None or h.expr is not None:
+    if bound is None or (h.expr is not None and not h.let):
         return None          # expression helpers are substituted by the expression pass
     if any(any(isinstance(n, ast.Call) and h.matches(n, cls) is not None for n in ast.walk(a)) for a in bound.values()):
         return None
@@ -804,7 +829,13 @@ def _try_stmt(s, fn, cls, h):
         for n in ast.walk(ast.Module(body=h.body, type_ignores=[])):
             if isinstance(n, ast.Return) and not (isinstance(n.value, ast.Tuple) and len(n.value.elts) == len(keep)):
                 return None
-    prefix, body = _prepare_body(h, bound, fn, keep=keep)
+    # caller variables that nobody reads after this statement (textually later, or anywhere if it sits in a loop)
+    in_loop = any(isinstance(n, (ast.For, ast.While)) and any(x is s for x in ast.walk(n)) for n in _own_walk(fn))
+    inside = {id(x) for x in ast.walk(s)}
+    live = {x.id for x in _own_walk(fn) if isinstance(x, ast.Name) and isinstance(x.ctx, ast.Load) and id(x) not in inside
+            and (in_loop or x.lineno > s.lineno)}
+    dead = frozenset(a.id for a in bound.values() if isinstance(a, ast.Name) and a.id not in live)
+    prefix, body = _prepare_body(h, bound, fn, keep=keep, dead_after=dead)
     has_value_return = any(isinstance(n, ast.Return) and n.value is not None for b in body for n in ast.walk(b))
     if ctx == "return":
         if not _always_returns(body):
